@@ -204,7 +204,7 @@ func c06CloseOrder(a *An) {
 	w := a.walk(cl)
 	var closeCall, fileClose *Visit
 	for _, v := range w.Visits {
-		if _, ok := v.Instr.(*ssa.Call); !ok || v.Ctx.Parent != nil {
+		if _, ok := v.Instr.(*ssa.Call); !ok || v.Ctx.inChain(closeFn) {
 			continue
 		}
 		cal := visitCallee(v)
@@ -216,11 +216,11 @@ func c06CloseOrder(a *An) {
 		}
 	}
 	if closeCall == nil {
-		a.R.ob("C06.2", "Close:close(done)", "Close calls the function that closes done", a.P.pos(cl.Pos()), false, "no such call at the top level of Close")
+		a.R.ob("C06.2", "Close:close(done)", "Close calls the function that closes done", a.P.pos(cl.Pos()), false, "no such call reachable from Close")
 		return
 	}
 	if fileClose == nil {
-		a.R.ob("C06.2", "Close:file-close", "Close closes the notification file (this is what wakes the reader so that it closes the channels)", a.P.pos(cl.Pos()), false, "no (*os.File).Close call at the top level of Close")
+		a.R.ob("C06.2", "Close:file-close", "Close closes the notification file (this is what wakes the reader so that it closes the channels)", a.P.pos(cl.Pos()), false, "no (*os.File).Close call reachable from Close")
 		return
 	}
 	// must-pass: first-closer condition implies the file close's reaching condition
@@ -250,8 +250,73 @@ func c06CloseOrder(a *An) {
 		}
 	}
 	a.R.ob("C06.2", "Close:file-close", "on the first-closer path Close closes the notification file on every path", a.P.instrPos(fileClose.Instr), ok, wit)
+	c06CloseMark(a, closeFn)
 	a.R.ob("C06.2", "Close:order", "close(done) precedes the file close (the reader must see 'closed' when its read is interrupted)", a.P.instrPos(fileClose.Instr),
-		instrDominates(closeCall.Instr, fileClose.Instr), "dominance of the close(done) call over the file close")
+		precedesAlways(closeCall, fileClose), "the close(done) call comes first on every path to the file close")
+}
+
+// c06CloseMark: the function that closes done tells the truth: it answers "already closed" only when done is closed,
+// and "first closer" only after it closed done itself. (Close relies on that answer to decide whether to release anything.)
+func c06CloseMark(a *An, closeFn *ssa.Function) {
+	ro := a.Ro
+	w := a.walk(closeFn)
+	var cd *Visit
+	for _, v := range w.Visits {
+		if args, ok := isBuiltinCall(v.Instr, "close"); ok && len(args) == 1 && v.Ctx.fieldOfValue(args[0]) == ro.Done {
+			cd = v
+		}
+	}
+	isClosedLit := func(l Lit) bool { t, closed := ro.closedLit(l); return t && closed }
+	nRet := 0
+	var bad []string
+	for _, v := range w.Visits {
+		r, isRet := v.Instr.(*ssa.Return)
+		if !isRet || v.Ctx.Parent != nil {
+			continue
+		}
+		if len(r.Results) != 1 {
+			bad = append(bad, "unrecognised result shape at "+a.P.instrPos(r))
+			continue
+		}
+		for _, e := range valueEdges(v.Ctx, r.Results[0], v.Cond) {
+			nRet++
+			cond := e.Cond
+			val := "?"
+			if k, isK := e.V.(*ssa.Const); isK && k.Value != nil {
+				val = k.Value.String()
+			} else if call, isCall := e.V.(*ssa.Call); isCall {
+				if cal := e.Ctx.calleeOf(&call.Call); cal != nil && ro.isIsClosed(cal) {
+					// the answer is isClosed() itself: true is truthful by definition; look at the false case
+					at, neg := e.Ctx.atom(call)
+					if at != nil {
+						cond = safeAndDNF(cond, DNF{Conj{at.ID(): Lit{A: at, Neg: !neg}}})
+						val = "false"
+						nRet++ // this one edge stands for both answers
+					}
+				}
+			}
+			switch val {
+			case "true":
+				if okc, ctr := cond.everyConj(func(c Conj) bool { return c.has(isClosedLit) }); !okc {
+					w := ""
+					if ctr != nil {
+						w = stripIDs(ctr.String())
+					}
+					bad = append(bad, sprintf("%s answers 'already closed' although done need not be closed, under %s", a.P.instrPos(r), w))
+				}
+			case "false":
+				if cd == nil || cd.Seq > v.Seq {
+					bad = append(bad, sprintf("%s answers 'first closer' without a preceding close(done)", a.P.instrPos(r)))
+				} else if h, ctr, err := implies(cond, cd.Cond); err != nil || !h {
+					bad = append(bad, sprintf("%s answers 'first closer' although close(done) is skipped when %s", a.P.instrPos(r), stripIDs(ctr)))
+				}
+			default:
+				bad = append(bad, sprintf("%s returns an unrecognised value %s", a.P.instrPos(r), stripIDs(e.Ctx.path(e.V))))
+			}
+		}
+	}
+	a.R.ob("C06.2", shortFn(closeFn)+":truthful", "the close-marking function answers 'already closed' only when done is closed, and 'first closer' only after closing done itself (otherwise a Close returns having released nothing)",
+		a.P.pos(closeFn.Pos()), len(bad) == 0 && nRet >= 2, sprintf("%d result edge(s) examined; %s", nRet, strings.Join(bad, "; ")))
 }
 
 // underClosed filters a DNF by the typestate "done is closed": isClosed() is true.
@@ -260,7 +325,7 @@ func underClosed(ro *Roles, d DNF) DNF {
 	for _, c := range d {
 		dead := false
 		for _, l := range c {
-			if l.A.Kind == AkPred && l.A.Callee != nil && ro.isIsClosed(l.A.Callee) && l.Neg {
+			if t, closed := ro.closedLit(l); t && !closed {
 				dead = true
 			}
 		}
